@@ -400,7 +400,9 @@ pub fn decode_len(l: &LenS, b: &[u8]) -> u128 {
 pub fn render_init(sh: &Shape, d: &D) -> String {
     match (sh, d) {
         (_, D::Raw(b)) => render_sized(sh, b),
-        (Shape::Vec(_, _), D::VecEmpty) => "V[]".into(),
+        (Shape::Vec(e, _), D::VecEmpty) if e.size() != 0 => "V[]".into(),
+        (Shape::Vec(e, _), D::VecArr(xs)) | (Shape::Vec(e, _), D::VecIter(xs)) if e.size() == 0 => format!("V[*{}]", xs.len()),
+        (Shape::Vec(e, _), D::VecEmpty) if e.size() == 0 => "V[*0]".into(),
         (Shape::Vec(e, _), D::VecArr(xs)) | (Shape::Vec(e, _), D::VecIter(xs)) => format!("V[{}]", xs.iter().map(|x| render_sized(e, x)).collect::<Vec<_>>().join(" ")),
         (Shape::Str(_), D::StrFrom(b)) => format!("S:{}", hexs(b)),
         (Shape::Flex(_, _), D::FlexEmpty) => "F[]".into(),
